@@ -19,11 +19,11 @@ var embeddedAppenders = map[string]string{"Write": "len(arg)", "WriteString": "l
 // rejectEdge describes an If whose true or false edge leads to a block
 // returning a "too large" error (or answering 413).
 type rejectEdge struct {
-	If     *ssa.If
-	Taken  bool // reject when the condition is true
-	Block  *ssa.BasicBlock
-	Kind   int64
-	Is413  bool
+	If    *ssa.If
+	Taken bool // reject when the condition is true
+	Block *ssa.BasicBlock
+	Kind  int64
+	Is413 bool
 }
 
 func tooLargeReturns(r *RT, fn *ssa.Function) map[*ssa.BasicBlock]int64 {
